@@ -15,12 +15,14 @@ ASSUMPTIONS = [
     'callers are verified against callee contracts, not bodies; each replaced callee is listed per unit and is itself a unit',
 ]
 
-NC_MUL = ('multiplication, squaring, division and everything built on them (bn_mul*, bn_sqr*, bn_div*, bn_mod*, Karatsuba/Comba variants): '
-          'digit products are not decidable by the installed back ends (DESIGN 2 P7, P21)')
+NC_MUL = ('the digit product itself (RLC_MUL_DIG is abstracted by uninterpreted functions in the multiplication units: what is proved there is carry propagation, '
+          'accumulation, column placement, lengths, signs, normalisation and frames of bn_mul1/mula_low, bn_mul_dig, bn_mul_basic, and - up to 6 digits - bn_muln/muld_low, bn_mul_comba); '
+          'squaring, Karatsuba, division and everything built on them (bn_sqr*, bn_mul_karat, bn_div*, bn_mod*): not decidable by the installed back ends (DESIGN 2 P7, P21)')
 PROPERTY_META = {
     'C01': dict(not_covered=NC_MUL + '; the 64-bit digit width for the API layer (verified at WSIZE=8, BN_PRECI=32: same sources, RLC_BN_SIZE=10; '
                 'only the digit loops bn_addn/subn/lsh1_low are additionally proved for all lengths in the shipped configuration); GMP/asm back ends; ALLOC=DYNAMIC',
-                assumptions=['memcpy(p,p,n) leaves the bytes unchanged (bn_lsh/bn_rsh copy in place through dv_copy)',
+                assumptions=['RLC_MUL_DIG(H, L, A, B) computes the exact double-digit product A*B = H*2^W + L (multiplication units only; they use it through the one range fact PROD <= (B-1)^2, stated as an assumption inside the abstracted macro)',
+                             'memcpy(p,p,n) leaves the bytes unchanged (bn_lsh/bn_rsh copy in place through dv_copy)',
                              'util_bits_dig on x86-64 is the lzcnt instruction behind a function pointer: its contract is enforced on the ARCH=none table implementation only']),
     'C02': dict(not_covered='multiplication, squaring, Montgomery/special reduction, inversion, exponentiation, roots, Legendre symbol, conversions, fp_hlvd_low, '
                 'agreement between algorithm variants: number-theoretic identities modulo p outside the back ends (DESIGN 5 C02); other field sizes than the shipped 256 bits',
